@@ -2,6 +2,7 @@ package main
 
 import (
 	"promverif/eng"
+	"strings"
 )
 
 func init() {
@@ -29,10 +30,12 @@ func runC22(c *eng.Ctx) {
 	c.OnlyIn("R1", wr, 7, "tsdb:Head.getOrCreateWithOptionalID", "tsdb:Head.loadWAL", "tsdb:Head.loadChunkSnapshot", "tsdb:Head.Init", "tsdb:Head.loadMmappedChunks")
 	{
 		// references met in the head-chunk files only raise the counter (finding F62, repaired)
-		lm := c.Fn("tsdb:Head.loadMmappedChunks").InnerClosure("iterate", wr)
-		lm.Only("R1", wr, "is a Store guarded by lastSeriesID.Load() < ref (only raised)", func(l eng.Loc) bool {
-			return eng.CallMethodName(l) == "Store" && lm.UnderCond(l, "lastSeriesID.Load()", "<")
-		})
+		if lmf := c.Fn("tsdb:Head.loadMmappedChunks"); strings.Contains(nodeText(lmf.Body), "h.lastSeriesID.Store(") { // absent: reported by R7
+			lm := lmf.InnerClosure("iterate", wr)
+			lm.Only("R1", wr, "is a Store guarded by lastSeriesID.Load() < ref (only raised)", func(l eng.Loc) bool {
+				return eng.CallMethodName(l) == "Store" && lm.UnderCond(l, "lastSeriesID.Load()", "<")
+			})
+		}
 	}
 	c.Fn("tsdb:Head.getOrCreateWithOptionalID").Only("R1", wr, "is an Inc()", func(l eng.Loc) bool { return eng.CallMethodName(l) == "Inc" })
 	{
